@@ -452,7 +452,9 @@ def run(tier, seed, workers):
     import random
     random.Random(seed + 7).shuffle(items)
     st = core.parallel_items(_work, items, workers, chunk=max(1, len(items) // (workers * 8)))
-    probe = items[0][0]
+    # determinism probe on a single-timer program: with several timers the order of their (equal-priority) generate_events
+    # handlers follows set iteration order, which no oracle constrains and the harness does not own
+    probe = [it[0] for it in items if len(it[0]['timers']) == 1 and it[0]['timers'][0]['persist']][0]
     a, b = execute(probe, []), execute(probe, [])
     if a.log != b.log:
         st.selfcheck_errors.append('determinism: two runs differ')
